@@ -58,11 +58,13 @@ CLAIMS = {
             "that mast DiffIter/DiffLinks visit every entry/node is an assumed clause (higher-order dependency); 'rows unchanged' as one functional postcondition of Vacuum is not stated; crash points are covered as ordering obligations only", "DESIGN §6 C09, §12"),
     "C10": ("cutoff boundaries: row side strictly before the cutoff (call-site assertion in Vacuum), purge test in the RemoveTombstones callback (stamp != 0 and strictly before the cutoff, everything else untouched), version side every successor not after the cutoff",
             "completeness of the version-side selection and idempotence of a repeated vacuum are not stated; iterator coverage assumed", "DESIGN §6 C10, §12"),
+    "C18": ("node encryption: every slice/array access of encrypt, decrypt and the legacy box path is in bounds for EVERY ciphertext (any length, truncated or not: error, never a panic); the ciphertext is a function of (key, plaintext) only (nonce = blake2b(plaintext||key): unchanged nodes deduplicate); "
+            "decrypt inverts encrypt for every plaintext and key as a lemma over the two verified contracts and the assumed seal/open law; the encryptor wraps the node store only (version objects use plain Persist objects)",
+            "confidentiality and authentication are properties of the assumed primitives (trusted/crypto.contracts) and are not decided; readability of legacy-format data is not expressible by a contract within reach: a bounded run on the real code (never counted as proved) stands in and reports a KNOWN FINDING (legacy boxes longer than 32 bytes decrypt to garbage without error)", "DESIGN §6 C18, §12"),
 }
 
 NOT_APPLICABLE = {
     "C03": "quantifies over request-level interleavings of several clients (schedules, histories): a whole-history property that per-function contracts on sequential code cannot express; the ordering facts contracts can carry are claimed under C04/C11/C13 (DESIGN §7, §12.1)",
-    "C18": "not reached in this round: the reachable part would be slice-bounds obligations in kv/crypto.go over assumed nacl/secretbox contracts (confidentiality and authentication are properties of the assumed primitives); no other technique substituted (DESIGN §12.1)",
     "C19": "quantifies over thread schedules under the race detector; contracts on sequential code have no model of threads (DESIGN §7)",
 }
 
